@@ -487,6 +487,8 @@ type vgen struct {
 	vars   map[string]string // position type → variable name
 	varTyp map[string]string // variable name → position type
 	frags  []*VFrag
+	// fragments made on the fly by mergePattern (always spread where they are made)
+	extraFrags []*VFrag
 	// per definition under construction
 	curVars    map[string]bool
 	curSpreads map[string]bool
@@ -877,7 +879,61 @@ func (g *vgen) selSet(parent string, depth int, wrapped bool) []*VSel {
 			out = append(out, g.field(parent, depth))
 		}
 	}
+	if depth > 0 && !g.o.NoFragments && r.Chance(1, 6) {
+		out = append(out, g.mergePattern(parent)...)
+	}
 	return out
+}
+
+// mergePattern: the same composite field three or four times in one selection set — through a fragment, directly
+// with a sub-selection that spreads a SECOND fragment on the same type, and through that second fragment (legal on
+// a self-referential type, no cycle): `...M0 f { ...M1 x } ...M1` with `fragment M0 on P { f { y } }`,
+// `fragment M1 on P { f { z } }`, in a random order. The occurrences merge under one response key and the merged
+// sub-selection must be the union of all of them, at both levels.
+func (g *vgen) mergePattern(parent string) []*VSel {
+	r := g.r
+	var cands []gq.FieldDesc
+	for _, f := range g.v.Fields(parent) {
+		n := NamedOf(f.Type)
+		if strings.HasPrefix(f.Name, "__") || !g.v.IsComposite(n) || len(f.Args) > 0 || !g.v.Overlap(n, parent) {
+			continue
+		}
+		if ki := g.keys[f.Name]; ki != nil && (ki.name != f.Name || ki.typ != f.Type) {
+			continue
+		}
+		cands = append(cands, f)
+	}
+	if len(cands) == 0 {
+		return nil
+	}
+	f := cands[r.Intn(len(cands))]
+	if g.keys[f.Name] == nil {
+		g.keys[f.Name] = &keyInfo{name: f.Name, typ: f.Type}
+	}
+	named := NamedOf(f.Type)
+	occ := func(inner ...*VSel) *VSel {
+		return &VSel{Kind: "field", Name: f.Name, Parent: parent, Type: f.Type, HasSel: true, Sel: append(inner, g.field(named, 0))}
+	}
+	mk := func() *VFrag {
+		fr := &VFrag{Name: fmt.Sprintf("M%d", len(g.extraFrags)), On: parent, Sel: []*VSel{occ()}}
+		g.extraFrags = append(g.extraFrags, fr)
+		g.curSpreads[fr.Name] = true
+		return fr
+	}
+	a, b := mk(), mk()
+	spread := func(fr *VFrag) *VSel { return &VSel{Kind: "spread", Name: fr.Name, Parent: parent} }
+	items := []*VSel{spread(a), occ(&VSel{Kind: "spread", Name: b.Name, Parent: named}), spread(b)}
+	if r.Chance(1, 3) {
+		items = append(items, occ())
+	}
+	for i := len(items) - 1; i > 0; i-- {
+		if r.Chance(1, 3) {
+			j := r.Intn(i + 1)
+			items[i], items[j] = items[j], items[i]
+		}
+	}
+	g.feat("merge-pattern")
+	return items
 }
 
 func (g *vgen) document() *VDoc {
@@ -997,6 +1053,11 @@ func (g *vgen) document() *VDoc {
 		g.meta.Variables[o.Name] = vals
 	}
 	for _, f := range g.frags {
+		if used[f.Name] {
+			doc.Frags = append(doc.Frags, f)
+		}
+	}
+	for _, f := range g.extraFrags {
 		if used[f.Name] {
 			doc.Frags = append(doc.Frags, f)
 		}
